@@ -69,6 +69,25 @@ func (x *Explorer) call(fr *Frame, b *ssa.BasicBlock, idx int, ins *ssa.Call, st
 		binds = cv.Binds
 	}
 	if callee == nil {
+		// function-valued package variables of cosmos-sdk/types (sdk.NewInt = sdkmath.NewInt, …)
+		if ld, ok := cc.Value.(*ssa.UnOp); ok {
+			if g, ok := ld.X.(*ssa.Global); ok && g.Pkg != nil && strings.HasSuffix(g.Pkg.Pkg.Path(), "cosmos-sdk/types") {
+				switch g.Name() {
+				case "NewInt", "NewIntFromUint64", "NewIntFromBigInt":
+					fr.env[ins] = asInt(st, args[0])
+					return false
+				case "NewIntFromString":
+					fr.env[ins] = x.intFromString(st, args[0])
+					return false
+				case "ZeroInt":
+					fr.env[ins] = &IntV{L: linConst(0), NonNeg: true}
+					return false
+				case "OneInt":
+					fr.env[ins] = &IntV{L: linConst(1), NonNeg: true}
+					return false
+				}
+			}
+		}
 		if _, ok := cc.Value.(*ssa.Builtin); ok {
 			fr.env[ins] = x.builtin(fr, st, ins, args)
 			return false
@@ -259,9 +278,11 @@ func (x *Explorer) ormCall(fr *Frame, st *State, oc *ORMCall, ins *ssa.Call, arg
 		if oc.Method != "Get" {
 			names = t.Unique[oc.Method]
 		}
+		row.Preset = map[string]Val{}
 		for i, n := range names {
 			if i < len(keyArgs) {
 				row.F["."+snakeToCamel(n)] = keyArgs[i]
+				row.Preset[snakeToCamel(n)] = keyArgs[i]
 			}
 		}
 		e := &ErrV{ID: st.newID(), Origin: "orm:" + t.Name + "." + oc.Method}
@@ -280,6 +301,12 @@ func (x *Explorer) ormCall(fr *Frame, st *State, oc *ORMCall, ins *ssa.Call, arg
 		st.events = append(st.events, ev)
 		return &Tuple{Vs: []Val{&BoolV{F: "Has:" + t.Name + "." + oc.Method + "(" + strings.Join(ks, ", ") + ")"}, e}}
 	case "list":
+		// drop the variadic options: the scan is identified by its index key(s)
+		if oc.Method == "List" && len(keyArgs) > 1 {
+			keyArgs = keyArgs[:1]
+		} else if oc.Method == "ListRange" && len(keyArgs) > 2 {
+			keyArgs = keyArgs[:2]
+		}
 		it := &IterV{ID: st.newID(), T: t, Kind: oc.Method, Keys: keyArgs}
 		e := &ErrV{ID: st.newID(), Origin: "orm:" + t.Name + "." + oc.Method}
 		ev.Kind, ev.Keys, ev.ErrID, ev.RowObj = "read", keyArgs, e.ID, it.ID
@@ -387,9 +414,24 @@ func (x *Explorer) resolveOld(st *State, o *Obj, t *Table, kind string, row map[
 		case "read":
 			if ev.OpKind != "get" || ev.Method != "Get" {
 				if ev.OpKind == "get" {
-					// unique-index get: matches when the row object is the one written
+					// unique-index get: matches when the row object is the one written, or when the
+					// literal's primary key is the key column of the fetched row
 					if ev.RowObj == o.ID {
 						return x.oldFromRead(st, ev, t)
+					}
+					if fo := st.mem[ev.RowObj]; fo != nil {
+						var ks []string
+						for _, k := range t.PK {
+							f := snakeToCamel(k)
+							if v, ok := fo.F["."+f]; ok && fo.Preset[f] != nil {
+								ks = append(ks, st.canon(v))
+							} else {
+								ks = append(ks, st.find(fo.Name+"."+f))
+							}
+						}
+						if strings.Join(ks, "|") == key {
+							return x.oldFromRead(st, ev, t)
+						}
 					}
 				}
 				if ev.OpKind == "list" {
@@ -448,12 +490,8 @@ func (x *Explorer) pristineRow(st *State, o *Obj, t *Table) map[string]Val {
 		snap[f.Name()] = x.typed(st, &Sym{N: o.Name + "." + f.Name(), T: f.Type()})
 	}
 	// key columns are the lookup arguments
-	if strings.HasPrefix(o.Origin, "get:Get(") {
-		for _, k := range t.PK {
-			if v, ok := o.F["."+snakeToCamel(k)]; ok {
-				snap[snakeToCamel(k)] = v
-			}
-		}
+	for k, v := range o.Preset {
+		snap[k] = v
 	}
 	return snap
 }
@@ -530,6 +568,16 @@ func (x *Explorer) iterValue(fr *Frame, st *State, ins *ssa.Call, it *IterV) Val
 	row.Table = t
 	row.Name = fmt.Sprintf("%s#%d", t.Name, row.ID)
 	row.Origin = fmt.Sprintf("iter:%d", it.ID)
+	// a prefix scan fixes the key columns named by the index key
+	if it.Kind == "List" && len(it.Keys) == 1 {
+		if ik, ok := it.Keys[0].(*IndexKeyV); ok {
+			row.Preset = map[string]Val{}
+			for i, f := range ik.Fields {
+				row.F["."+f] = ik.Vals[i]
+				row.Preset[f] = ik.Vals[i]
+			}
+		}
+	}
 	row.Loop = x.loopTag(fr, ins.Block())
 	e := &ErrV{ID: st.newID(), Origin: "iter.Value"}
 	row.ErrID = e.ID
